@@ -226,6 +226,8 @@ def concretize(val, model, max_len=600):
         return dict(str=concretize(val.seq, model))
     if isinstance(val, V.SFlags):
         return dict(flags=val.cls.__name__, members=[m.name for m, b in val.bits.items() if ev(b) is True])
+    if isinstance(val, V.SDateTime):
+        return dict(datetime=ev(val.secs), micros=ev(val.micros), aware=bool(val.aware), utcoffset=ev(val.off))
     if isinstance(val, (list, tuple)):
         return [concretize(x, model) for x in val]
     if isinstance(val, dict):
